@@ -18,6 +18,7 @@ import (
 	"github.com/hashicorp/hcl/v2/hcldec"
 	"github.com/hashicorp/hcl/v2/hclsyntax"
 	"github.com/zclconf/go-cty/cty"
+	"github.com/zclconf/go-cty/cty/function"
 	"hclverif/hv"
 )
 
@@ -271,7 +272,7 @@ func objectIndexMarkedKey(e hclsyntax.Expression, ctx *hcl.EvalContext) bool {
 				defer func() { recover() }()
 				c, _ := ix.Collection.Value(ctx)
 				k, _ := ix.Key.Value(ctx)
-				if c != cty.NilVal && k != cty.NilVal && (c.Type().IsObjectType() || c.Type() == cty.DynamicPseudoType) && k.IsMarked() {
+				if c != cty.NilVal && k != cty.NilVal && c.Type().IsObjectType() && k.IsMarked() {
 					found = true
 				}
 			}()
@@ -279,6 +280,181 @@ func objectIndexMarkedKey(e hclsyntax.Expression, ctx *hcl.EvalContext) bool {
 		return nil
 	})
 	return found
+}
+
+// ---- the object-index finding, decided by re-evaluation ---------------------------------------------
+//
+// hcl.Index on an object drops the marks of the key (pinned by ops_test.go).  Whether THAT is what
+// launders the mark in a given case is decided by evaluating the case again with this one behaviour
+// repaired, expressed in the language itself: every index expression  C[K]  of the source becomes
+// idxfix__(C[K], C, K), where idxfix__ returns its first argument, with the marks of K added when C is an
+// object.  If the two results then no longer differ outside marked subtrees, the finding explains the
+// failure; otherwise something else launders a mark and the failure keeps its generic kind.
+
+var idxParam = func(n string) function.Parameter {
+	return function.Parameter{Name: n, Type: cty.DynamicPseudoType, AllowNull: true, AllowUnknown: true, AllowDynamicType: true, AllowMarked: true}
+}
+
+var idxFixFunc = function.New(&function.Spec{
+	Params: []function.Parameter{idxParam("r"), idxParam("c"), idxParam("k")},
+	Type:   func(args []cty.Value) (cty.Type, error) { return args[0].Type(), nil },
+	Impl: func(args []cty.Value, rt cty.Type) (cty.Value, error) {
+		c, _ := args[1].Unmark()
+		if c.Type().IsObjectType() {
+			_, km := args[2].Unmark()
+			return args[0].WithMarks(km), nil
+		}
+		return args[0], nil
+	},
+})
+
+type ixRange struct{ ws, we, cs, ce, ks, ke int }
+
+// rewriteIndexes returns src with every index expression wrapped as described above.
+func rewriteIndexes(src []byte, e hclsyntax.Expression) (string, bool) {
+	var ixs []ixRange
+	bad := false
+	hclsyntax.VisitAll(e, func(n hclsyntax.Node) hcl.Diagnostics {
+		if ix, ok := n.(*hclsyntax.IndexExpr); ok {
+			w, c, k := ix.Range(), ix.Collection.Range(), ix.Key.Range()
+			r := ixRange{w.Start.Byte, w.End.Byte, c.Start.Byte, c.End.Byte, k.Start.Byte, k.End.Byte}
+			if _, anon := ix.Collection.(*hclsyntax.AnonSymbolExpr); anon {
+				// the index step of a splat body ( x[*][K] ): its collection has no source text of its
+				// own, so it cannot be wrapped; it is left as it is (the elements it indexes are
+				// whatever the splat iterates over; an index expression INSIDE K is still rewritten)
+				return nil
+			}
+			if !(r.ws <= r.cs && r.cs <= r.ce && r.ce <= r.ks && r.ks <= r.ke && r.ke <= r.we && r.we <= len(src)) {
+				bad = true
+			}
+			ixs = append(ixs, r)
+		}
+		return nil
+	})
+	if bad || len(ixs) == 0 {
+		return "", false
+	}
+	budget := 1 << 20
+	var render func(lo, hi int, skip int) string
+	one := func(i int) string {
+		r := ixs[i]
+		c, k := render(r.cs, r.ce, -1), render(r.ks, r.ke, -1)
+		return "idxfix__(" + string(src[r.ws:r.cs]) + c + string(src[r.ce:r.ks]) + k + string(src[r.ke:r.we]) + ", " + c + ", " + k + ")"
+	}
+	render = func(lo, hi int, skip int) string {
+		// outermost index expressions inside [lo, hi)
+		var sb strings.Builder
+		pos := lo
+		for pos < hi {
+			best := -1
+			for i, r := range ixs {
+				if r.ws >= pos && r.we <= hi && (best < 0 || r.ws < ixs[best].ws || (r.ws == ixs[best].ws && r.we > ixs[best].we)) {
+					best = i
+				}
+			}
+			if best < 0 {
+				break
+			}
+			sb.Write(src[pos:ixs[best].ws])
+			t := one(best)
+			budget -= len(t)
+			if budget < 0 {
+				return ""
+			}
+			sb.WriteString(t)
+			pos = ixs[best].we
+		}
+		sb.Write(src[pos:hi])
+		return sb.String()
+	}
+	out := render(0, len(src), -1)
+	if budget < 0 {
+		return "", false
+	}
+	return out, true
+}
+
+// explainedByObjectIndex: with hcl.Index repaired for objects the two scopes no longer give results that
+// differ outside marked subtrees.
+func explainedByObjectIndex(text string, e hclsyntax.Expression, ctx1, ctx2 *hcl.EvalContext) bool {
+	src, ok := rewriteIndexes([]byte(text), e)
+	if !ok {
+		return false
+	}
+	e2, pd := hclsyntax.ParseExpression([]byte(src), "e.hcl", hcl.InitialPos)
+	if pd.HasErrors() {
+		return false
+	}
+	with := func(ctx *hcl.EvalContext) *hcl.EvalContext {
+		c := ctx.NewChild()
+		c.Functions = map[string]function.Function{"idxfix__": idxFixFunc}
+		return c
+	}
+	f := func(ctx *hcl.EvalContext) (cty.Value, hcl.Diagnostics) { return e2.Value(ctx) }
+	v1, d1, p1 := evalSafe(f, with(ctx1))
+	v2, d2, p2 := evalSafe(f, with(ctx2))
+	if p1 != nil || p2 != nil || d1.HasErrors() || d2.HasErrors() {
+		return false
+	}
+	return laundered(v1, v2, "result") == ""
+}
+
+func lookupVar(ctx *hcl.EvalContext, name string) (cty.Value, bool) {
+	for c := ctx; c != nil; c = c.Parent() {
+		if v, ok := c.Variables[name]; ok {
+			return v, true
+		}
+	}
+	return cty.NilVal, false
+}
+
+// blockCountExplains: the block-count finding, decided on the values.  The difference must be at the TOP
+// of the result (the tuple of generated blocks) and the for_each collection must be marked (at the top) in
+// both scopes.  Exactly two shapes are the finding:
+//   (known/known)    for_each is known and non-null in both scopes, its LENGTH differs between them, and
+//                    each result is the unmarked tuple of exactly that many blocks
+//                    (laundered: "result: length differs");
+//   (known/unknown)  for_each is known in one scope - the result there is the unmarked tuple of exactly
+//                    that many blocks (0 blocks: nothing is left that could carry the mark) - and UNKNOWN in
+//                    the other, where the whole result is a wholly unknown value carrying the for_each marks
+//                    (laundered: "result: marked in only one result: ...").
+// A length difference anywhere else in the result, one that the for_each lengths do not account for, an
+// unknown result WITHOUT the marks, or a known one of another length is not this finding.
+func blockCountExplains(ctx1, ctx2 *hcl.EvalContext, coll string, v1, v2 cty.Value, where string) bool {
+	f1, ok1 := lookupVar(ctx1, coll)
+	f2, ok2 := lookupVar(ctx2, coll)
+	if !ok1 || !ok2 || !f1.IsMarked() || !f2.IsMarked() {
+		return false
+	}
+	// the result in a scope where for_each is known: the unmarked tuple of as many blocks
+	knownSide := func(f, v cty.Value) bool {
+		u, _ := f.Unmark()
+		return u.IsKnown() && !u.IsNull() && u.CanIterateElements() &&
+			!v.IsMarked() && v.IsKnown() && !v.IsNull() && v.Type().IsTupleType() && v.LengthInt() == u.LengthInt()
+	}
+	// the result in a scope where for_each is unknown: wholly unknown, with (at least) the for_each marks
+	unknownSide := func(f, v cty.Value) bool {
+		u, fm := f.Unmark()
+		r, rm := v.Unmark()
+		if u.IsKnown() || r.IsKnown() {
+			return false
+		}
+		for m := range fm {
+			if _, ok := rm[m]; !ok {
+				return false
+			}
+		}
+		return len(fm) > 0
+	}
+	switch {
+	case where == "result: length differs":
+		u1, _ := f1.Unmark()
+		u2, _ := f2.Unmark()
+		return knownSide(f1, v1) && knownSide(f2, v2) && u1.LengthInt() != u2.LengthInt()
+	case strings.HasPrefix(where, "result: marked in only one result: "):
+		return (knownSide(f1, v1) && unknownSide(f2, v2)) || (unknownSide(f1, v1) && knownSide(f2, v2))
+	}
+	return false
 }
 
 type evalFn func(ctx *hcl.EvalContext) (cty.Value, hcl.Diagnostics)
@@ -315,7 +491,7 @@ func run(cfg *hv.RunCfg) error {
 			jobs = append(jobs, job{c, "expr"})
 		}
 		for i := 0; i < cfg.N; i++ {
-			jobs = append(jobs, job{"", []string{"expr", "expr", "expr", "body", "dyn"}[r.Intn(5)]})
+			jobs = append(jobs, job{"", []string{"expr", "expr", "tgt", "tgt", "body", "dyn"}[r.Intn(6)]})
 		}
 	}
 	for _, j := range jobs {
@@ -325,8 +501,12 @@ func run(cfg *hv.RunCfg) error {
 		text := j.text
 		var f evalFn
 		var exprForClass hclsyntax.Expression
+		dynColl := ""
 		switch j.kind {
-		case "expr":
+		case "expr", "tgt":
+			if text == "" && j.kind == "tgt" {
+				text = tgtExpr(r)
+			}
 			if text == "" {
 				text = g.GenTopExpr()
 			}
@@ -353,6 +533,7 @@ func run(cfg *hv.RunCfg) error {
 			f = func(ctx *hcl.EvalContext) (cty.Value, hcl.Diagnostics) { return hcldec.Decode(file.Body, spec, ctx) }
 		case "dyn":
 			coll := r.Pick("l", "mp", "st", "tp", "o", "d", "u", "z")
+			dynColl = coll
 			shape := r.Intn(3)
 			switch shape {
 			case 0:
@@ -380,7 +561,14 @@ func run(cfg *hv.RunCfg) error {
 			}
 		}
 		changed := false
-		ctx2 := cloneCtx(ctx1, func(name string, v cty.Value) cty.Value { return perturb(g, v, &changed) })
+		var ctx2 *hcl.EvalContext
+		if j.kind == "tgt" {
+			// hand-built pair of scopes (same types and marks, marked contents from small sets)
+			ctx1, ctx2 = tgtScope(r)
+			changed = scopeDump(ctx1) != scopeDump(ctx2)
+		} else {
+			ctx2 = cloneCtx(ctx1, func(name string, v cty.Value) cty.Value { return perturb(g, v, &changed) })
+		}
 		v1, d1, p1 := evalSafe(f, ctx1)
 		v2, d2, p2 := evalSafe(f, ctx2)
 		key := text + "##" + scopeDump(ctx1)
@@ -413,10 +601,17 @@ func run(cfg *hv.RunCfg) error {
 		}
 		kind := "mark-laundered"
 		switch {
-		case j.kind == "expr" && exprForClass != nil && (objectIndexMarkedKey(exprForClass, ctx1) || objectIndexMarkedKey(exprForClass, ctx2)):
+		case (j.kind == "expr" || j.kind == "tgt") && exprForClass != nil && (objectIndexMarkedKey(exprForClass, ctx1) || objectIndexMarkedKey(exprForClass, ctx2)) &&
+			explainedByObjectIndex(text, exprForClass, ctx1, ctx2):
+			// an object is indexed with a marked key AND repairing exactly that removes the difference
 			kind = "object-index-marked-key"
-		case j.kind == "dyn" && (strings.Contains(where, "length differs") || where == "result: "+hv.DumpVal(v1)+" VS "+hv.DumpVal(v2) && (!v1.IsKnown() || !v2.IsKnown())):
-			// the NUMBER of blocks generated from a marked for_each is visible (inherent to dynblock)
+		case (j.kind == "expr" || j.kind == "tgt") && exprForClass != nil && condUnselectedErrorDiffers(exprForClass, ctx1, ctx2):
+			// the unselected arm of a conditional fails in exactly one of the two runs
+			kind = "cond-unselected-arm-error-dropped"
+		case j.kind == "dyn" && blockCountExplains(ctx1, ctx2, dynColl, v1, v2, where):
+			// the NUMBER of blocks generated from a marked for_each (0, n, or unknown) is visible
+			// (inherent to dynblock): the top-level tuple of blocks, and only when the for_each values
+			// of the two scopes account for it
 			kind = "dynblock-marked-foreach-block-count"
 		case j.kind == "dyn":
 			kind = "dynblock-mark-laundered"
